@@ -3,8 +3,9 @@
 
    One action = one lock-delimited step of one goroutine:
      Update        AUpdStore (nb.Lock: store offset)            ; AUpdEnq  (events <- e)
-     Subscribe     ASubReg  (nb.Lock: checks, subscription)     ; ASubMark (prj.Lock: toSubscribe[ch]=channel) ; ASubEnq
-     Unsubscribe   AUnsReg  (nb.Lock: remove subscription)      ; AUnsMark (prj.Lock: toSubscribe[ch]=nil)     ; AUnsEnq
+     Subscribe     ASubReg  (nb.Lock: checks, subscription, toSubscribe[ch]=channel) ; ASubMark (hook window only) ; ASubEnq
+     Unsubscribe   AUnsReg  (nb.Lock: remove subscription, toSubscribe[ch]=nil)      ; AUnsMark (hook window only) ; AUnsEnq
+   (in the unrepaired shape of the code, mark_early = false, the toSubscribe write is the A*Mark step)
      cleanup       AClnTerm (nb.Lock: clone, terminated)        ; per cloned key AClnReg + the Unsubscribe steps ; AClnFin
      notifier      ANDeq (<-events) ; ANMerge (prj.Lock: merge toSubscribe) ; ANSend c (non-blocking token send, one per channel)
      WatchChannel  AWStart ; AWTake (<-cchan) ; AWScan (nb.Lock: collect + mark delivered) ; AWDeliver (callbacks) ; AWStop
@@ -119,6 +120,13 @@ Inductive action :=
 | AMark (m : N)     (* harness phase markers: 0 watchers parked from here, 1 every call returned, 2 quiescent, 3 all cleaned *)
 | AStuck (who : N). (* a goroutine did not arrive where the schedule sent it: never accepted *)
 
+(* ---- shape of the code, detected by the translator ---- *)
+(* Subscribe/Unsubscribe write toSubscribe inside their broker critical section (repaired code,
+   fix of F19); false = the write is a separate step after the broker lock was released *)
+Definition mark_early : bool := in10n_mark_under_broker_lock.
+(* NewChannel applies ChannelsPerSubject to a subject's first channel too (fix of C20-Q0) *)
+Definition first_checked : bool := in10n_first_channel_checked.
+
 (* ---- the steps ---- *)
 Definition new_chan (subj : N) (s : state) : state * out :=
   if q_ch (quo s) <=? count_live (chans s) then (s, ORes RQChans)
@@ -128,7 +136,11 @@ Definition new_chan (subj : N) (s : state) : state * out :=
       (set_metrics (set_nextc (putc c (mkChan subj [] false true false WNone) s) (c + 1)) (set subj (nc + 1, ns) (metrics s)), ORes ROk) in
     match get subj (metrics s) with
     | Some (nc, ns) => if q_chs (quo s) <=? nc then (s, ORes RQChansSubj) else mk nc ns
-    | None => mk 0 0      (* quirk: a subject's first channel is not checked against ChannelsPerSubject *)
+    | None => if first_checked
+              then (if q_chs (quo s) <=? 0
+                    then (set_metrics s (set subj (0, 0) (metrics s)), ORes RQChansSubj)  (* the metric record is created before the check *)
+                    else mk 0 0)
+              else mk 0 0   (* unrepaired shape: a subject's first channel is not checked *)
     end.
 
 (* guaranteeProjection *)
@@ -140,7 +152,13 @@ Definition upd_store (p o : N) (s : state) : state :=
   let x := getp p s1 in
   set_calls (putp p (mkProj o (p_tosub x) (p_subd x)) s1) (KUpd p :: calls s1).
 
-Definition sub_reg (c p : N) (s : state) : state * out :=
+Definition mark (c p : N) (b : bool) (s : state) : state :=
+  let x := getp p s in putp p (mkProj (p_off x) (set c b (p_tosub x)) (p_subd x)) s.
+Definition mark_if (c p : N) (b : bool) (s : state) : state := if mark_early then mark c p b s else s.
+Definition mark_late (c p : N) (b : bool) (s : state) : state := if mark_early then s else mark c p b s.
+
+(* the broker part of Subscribe without the toSubscribe write *)
+Definition sub_reg0 (c p : N) (s : state) : state * out :=
   match live_chan s c with
   | None => (s, ORes RNoChan)
   | Some ch =>
@@ -161,8 +179,14 @@ Definition sub_reg (c p : N) (s : state) : state * out :=
     end
   end.
 
-(* the broker part of Unsubscribe; [k] says what to do with the calls when the projection exists *)
-Definition uns_core (c p : N) (s : state) : option (state * bool) :=
+Definition sub_reg (c p : N) (s : state) : state * out :=
+  match sub_reg0 c p s with
+  | (s', ORes ROk) => (mark_if c p true s', ORes ROk)
+  | r => r
+  end.
+
+(* the broker part of Unsubscribe without the toSubscribe write; the flag says whether the projection exists *)
+Definition uns_core0 (c p : N) (s : state) : option (state * bool) :=
   match live_chan s c with
   | None => None
   | Some ch =>
@@ -180,6 +204,12 @@ Definition uns_core (c p : N) (s : state) : option (state * bool) :=
     end
   end.
 
+Definition uns_core (c p : N) (s : state) : option (state * bool) :=
+  match uns_core0 c p s with
+  | Some (s1, true) => Some (mark_if c p false s1, true)
+  | r => r
+  end.
+
 Definition uns_reg (c p : N) (s : state) : state * out :=
   match live_chan s c with
   | None => (s, ORes RNoChan)
@@ -190,9 +220,6 @@ Definition uns_reg (c p : N) (s : state) : state * out :=
     | Some (s1, false) => (s1, ORes ROkNoProj)
     end
   end.
-
-Definition mark (c p : N) (b : bool) (s : state) : state :=
-  let x := getp p s in putp p (mkProj (p_off x) (set c b (p_tosub x)) (p_subd x)) s.
 
 Definition cln_term (c : N) (s : state) : option (state * out) :=
   if nextc s <=? c then None else
@@ -257,11 +284,11 @@ Definition step (s : state) (a : action) : option (state * out) :=
   | AUpdEnq p => if has (KUpd p) (calls s) && can_enq s then Some (enq p (set_calls s (rm1 (KUpd p) (calls s))), ONone) else None
   | ASubReg c p => Some (sub_reg c p s)
   | ASubMark c p => if has (KSub c p false) (calls s)
-                    then Some (set_calls (mark c p true s) (repl (KSub c p false) (KSub c p true) (calls s)), ONone) else None
+                    then Some (set_calls (mark_late c p true s) (repl (KSub c p false) (KSub c p true) (calls s)), ONone) else None
   | ASubEnq c p => if has (KSub c p true) (calls s) && can_enq s then Some (enq p (set_calls s (rm1 (KSub c p true) (calls s))), ONone) else None
   | AUnsReg c p => Some (uns_reg c p s)
   | AUnsMark c p => if has (KUns c p false) (calls s)
-                    then Some (set_calls (mark c p false s) (repl (KUns c p false) (KUns c p true) (calls s)), ONone) else None
+                    then Some (set_calls (mark_late c p false s) (repl (KUns c p false) (KUns c p true) (calls s)), ONone) else None
   | AUnsEnq c p => if has (KUns c p true) (calls s) && can_enq s
                    then Some (enq p (set_calls s (unbusy c (rm1 (KUns c p true) (calls s)))), ONone) else None
   | AClnTerm c => cln_term c s
@@ -324,15 +351,6 @@ Definition step (s : state) (a : action) : option (state * out) :=
 (* updates of one projection carry non-decreasing offsets *)
 Definition adm_mono (s : state) (a : action) : bool :=
   match a with AUpdStore p o => offset s p <=? o | _ => true end.
-(* the window "registered, toSubscribe not yet written" of a Subscribe never overlaps that of an
-   Unsubscribe (explicit or by cleanup) of the same channel and projection *)
-Definition adm_cf (s : state) (a : action) : bool :=
-  match a with
-  | ASubReg c p => negb (has (KUns c p false) (calls s))
-  | AUnsReg c p | AClnReg c p => negb (has (KSub c p false) (calls s))
-  | _ => true
-  end.
-Definition adm (s : state) (a : action) : bool := adm_mono s a && adm_cf s a.
 Definition adm_any (s : state) (a : action) : bool := true.
 
 Definition ev := (action * out)%type.
